@@ -172,6 +172,10 @@ func (t *Type) ParamName() string {
 
 // String returns a human-readable version of the Type.
 func (t *Type) String() string {
+	if t == nil {
+		// The element type of a container written without one.
+		return ""
+	}
 	switch t.Name {
 	case "map":
 		return fmt.Sprintf("map<%s,%s>", t.KeyType.String(), t.ValueType.String())
